@@ -2,10 +2,11 @@
 // SPDX-License-Identifier: Apache-2.0
 // Copyright (c) A5 contributors
 
-use crate::coordinate_systems::{Face, LonLat};
+use crate::coordinate_systems::{Cartesian, Face, LonLat};
 use crate::core::constants::PI_OVER_5;
 use crate::core::coordinate_transforms::{
-    face_to_ij, from_lon_lat, normalize_longitudes, to_lon_lat, to_polar,
+    face_to_ij, from_lon_lat, normalize_longitudes, to_cartesian, to_lon_lat, to_polar,
+    to_spherical,
 };
 use crate::core::hilbert::{ij_to_s, s_to_anchor};
 use crate::core::origin::{find_nearest_origin, quintant_to_segment, segment_to_quintant};
@@ -42,13 +43,30 @@ pub fn lonlat_to_cell(lonlat: LonLat, resolution: i32) -> Result<u64, String> {
     let n = 25;
     let scale = 50.0 / 2.0_f64.powi(hilbert_resolution);
 
+    // Offsets are applied in the tangent plane of the sphere at the point, not in degrees of
+    // longitude / latitude: near the poles a degree of longitude shrinks to nothing and the probe
+    // pattern collapsed onto a meridian, so that neighbouring cells were never tried
+    let center = to_cartesian(from_lon_lat(lonlat));
+    let (cx, cy, cz) = (center.x(), center.y(), center.z());
+    // east = z x center (or x x center at the poles of the internal frame), north = center x east
+    let (ex, ey, ez) = if cz.abs() < 0.9 {
+        (-cy, cx, 0.0)
+    } else {
+        (0.0, -cz, cy)
+    };
+    let e_len = (ex * ex + ey * ey + ez * ez).sqrt();
+    let (ex, ey, ez) = (ex / e_len, ey / e_len, ez / e_len);
+    let (nx, ny, nz) = (cy * ez - cz * ey, cz * ex - cx * ez, cx * ey - cy * ex);
+
     for i in 0..n {
-        let r = (i as f64 / n as f64) * scale;
-        let coordinate = LonLat::new(
-            lonlat.longitude() + (i as f64).cos() * r,
-            lonlat.latitude() + (i as f64).sin() * r,
+        let r = ((i as f64 / n as f64) * scale).to_radians();
+        let (de, dn) = ((i as f64).cos() * r, (i as f64).sin() * r);
+        let moved = Cartesian::new(
+            cx + de * ex + dn * nx,
+            cy + de * ey + dn * ny,
+            cz + de * ez + dn * nz,
         );
-        samples.push(coordinate);
+        samples.push(to_lon_lat(to_spherical(moved)));
     }
 
     // Deduplicate estimates
